@@ -780,6 +780,17 @@ fn run_single_test(test: &TestInfo) -> TestResult {
         }
     };
 
+    // The generated crate only *defines* the test function. Give `cargo test` something to run: a `#[test]`
+    // that calls it (and a `main` if the file has none, the harness project is a binary crate).
+    let has_main = ast.declarations.iter().any(|d| {
+        matches!(&d.node, crate::frontend::ast::Declaration::Function(f) if f.name == "main")
+    });
+    let rust_code = format!(
+        "{rust_code}\n{main}\n#[cfg(test)]\nmod __incan_test_harness {{\n    #[test]\n    fn run_selected_test() {{\n        super::{name}();\n    }}\n}}\n",
+        main = if has_main { "" } else { "fn main() {}" },
+        name = test.function_name,
+    );
+
     let temp_dir = format!("target/incan_tests/{}", test.function_name);
     let generator = ProjectGenerator::new(&temp_dir, "test_runner", true);
 
